@@ -83,6 +83,8 @@ type Disk struct {
 	// FailOpen, if set, may return an error for an open of path (descriptor table full, disk
 	// full, permission lost); nothing is created in that case.
 	FailOpen func(path string, flag int) error
+	// FailRename, if set, may return an error for a rename (cross-device link, permission).
+	FailRename func(oldpath, newpath string) error
 	// OnStat is called at the start of every Stat of a path (an external actor may act right
 	// before the caller sees the file's attributes).
 	OnStat func(path string)
@@ -399,6 +401,12 @@ func Rename(oldpath, newpath string) error {
 	simrt.YS()
 	d := disk()
 	op, np := clean(oldpath), clean(newpath)
+	if d.FailRename != nil {
+		if err := d.FailRename(op, np); err != nil {
+			simrt.Fault("disk_rename_error")
+			return &os.LinkError{Op: "rename", Old: oldpath, New: newpath, Err: err}
+		}
+	}
 	oparent := d.lookup(filepath.Dir(op))
 	if oparent == nil || oparent.children[filepath.Base(op)] == nil {
 		return &os.LinkError{Op: "rename", Old: oldpath, New: newpath, Err: syscall.ENOENT}
